@@ -196,6 +196,9 @@ def build_family(tier, seed):
         groups[f"norm-complex/{nm}"] = ([dict(body="body_norm", spec=dict(a=a), complex=True, seed=seed + i) for i, a in enumerate(mats[::3])], False)
         mixed = [dict(a, cx=tuple(a["present"][1:])) for a in mats if len(a["present"]) >= 2 and not a.get("prefuse")]
         groups[f"norm-mixed-real-complex/{nm}"] = ([dict(body="body_norm", spec=dict(a=a), seed=seed + i) for i, a in enumerate(mixed[::2])], False)
+        # the empty sparsity pattern: no stored block at all (dense form is the zero matrix, norm 0)
+        empt = [dict(a, present=(), phases=()) for a in mats[:40] if not a.get("prefuse")]
+        groups[f"norm-no-stored-blocks/{nm}"] = ([dict(body="body_norm", spec=dict(a=a), seed=seed + i) for i, a in enumerate(empt)], False)
         if fermionic:
             continue
         two, one = fam.std_tables(sym, thorough, n_two=3, n_one=1)
@@ -242,6 +245,15 @@ def build_family(tier, seed):
                         for p in pb:
                             sv.append(dict(a=A, b=dict(sym=sym, generic=generic, fermionic=False, indices=bix, charge=qb, present=tuple(p), phases=(), oddpos=None, name="b")))
         groups[f"solve/{nm}"] = ([dict(body="body_solve", spec=c, sample=(i % 60 == 0), seed=seed + i) for i, c in enumerate(sv)], False)
+        groups[f"solve-complex/{nm}"] = ([dict(body="body_solve", spec=c, complex=True, seed=seed + i) for i, c in enumerate(sv[::2])], False)
+        # mixed element types: real matrix with a complex right-hand side (the imaginary part of b must reach the solution), and the reverse
+        mx = []
+        for k, c in enumerate(sv):
+            if k % 2 == 0:
+                mx.append(dict(a=dict(c["a"], cx=()), b=dict(c["b"], cx=tuple(c["b"]["present"]))))
+            else:
+                mx.append(dict(a=dict(c["a"], cx=tuple(c["a"]["present"])), b=dict(c["b"], cx=())))
+        groups[f"solve-mixed-real-complex/{nm}"] = ([dict(body="body_solve", spec=c, complex=False, seed=seed + i) for i, c in enumerate(mx)], False)
     return groups
 
 
